@@ -28,6 +28,8 @@ def c01(tier: str) -> list[dict[str, Any]]:
         plan("G1 eager, 2 workers, one failure or missing result", trav.menu("G1", lazy=False), m, K=1, statuses=["PASS", "FAIL", "NONE"], max_nonpass=1, pool_bits="shared", pool_states=["customize", "on_customize"]),
         plan("G8 removable state with a dependant, one worker excluded by its restrictions", trav.menu("G8"), m, K=1, statuses=["PASS"], pool_fixed={**DEEP, "linux_virtuser": ["shared"], "windows_virtuser": ["shared"], "connect": ["shared"]}),
         plan("G2 with a Fedora vm1 (both vms need a setup of the same name), 1 worker", trav.menu("G2", nets="net1", vm_strs={"vm1": "only Fedora\n", "vm2": "only Win10\n", "vm3": "only Ubuntu\n"}, label="G2-fedora"), m, K=1, statuses=["PASS"]),
+        plan("composed: G2 2 workers judged by the real states.setup/pool layer", trav.menu("G2"), [M.c01_composed], K=1, statuses=["PASS", "FAIL"], max_nonpass=1, pool_bits="all", pool_states=["customize"], pool_fixed={"install": ["shared"]}, real_layer=True,
+             bounds={"oracle": "real states.setup.get_states over the real SourcedStateBackend/RootSourcedStateBackend with the test's own parameters; storage = store model"}),
         plan("G9 two leaves, reuse scope narrowed to own+shared, 2 workers", trav.menu("G9", params={"pool_scope": "own shared"}, label="G9-ownshared"), m, K=1, statuses=["PASS"], pool_fixed={"install": ["shared"]}),
     ]
     if tier == "thorough":
@@ -37,6 +39,8 @@ def c01(tier: str) -> list[dict[str, Any]]:
             plan("G3 3 workers, two failures", trav.menu("G3x3"), m, K=1, statuses=["PASS", "FAIL", "WARN"], max_nonpass=2, pool_bits="all", pool_states=["linux_virtuser", "windows_virtuser", "guisetup.noop"], pool_fixed=DEEP),
             plan("G4 cloning, 2 workers", trav.menu("G4"), m, K=1, statuses=["PASS", "FAIL"], max_nonpass=1, pool_bits="shared", pool_states=["connect", "guisetup.noop", "guisetup.clicked"], pool_fixed={**DEEP, "linux_virtuser": ["shared"], "windows_virtuser": ["shared"]}),
             plan("G6 remote clusters, pools symbolic", trav.menu("G6b"), m, K=1, statuses=["PASS", "FAIL"], max_nonpass=1, pool_bits="all", pool_states=["install", "customize"]),
+            plan("composed: G6 remote clusters judged by the real state layer", trav.menu("G6b"), [M.c01_composed], K=1, statuses=["PASS"], pool_bits="all", pool_states=["customize"], pool_fixed={"install": ["shared"]}, real_layer=True),
+            plan("composed: G9 narrowed scope judged by the real state layer", trav.menu("G9", params={"pool_scope": "own shared"}, label="G9-ownshared"), [M.c01_composed], K=1, statuses=["PASS"], pool_fixed={"install": ["shared"]}, real_layer=True),
         ]
     return out
 
